@@ -24,6 +24,7 @@ package main
 
 import (
 	"fmt"
+	"net/url"
 	"sort"
 	"strings"
 	"sync"
@@ -210,6 +211,18 @@ func checkText(form string, p []string) (sig, msg string) {
 		if u2.String() != u.String() || u2.Path() != u.Path() || fmt.Sprint(u2.Owner()) != fmt.Sprint(u.Owner()) {
 			return "text:uri", fmt.Sprintf("ParseLimeURI(%q): text %q reparses to %q (path %q vs %q)", p[0], u.String(), u2.String(), u.Path(), u2.Path())
 		}
+		// reference: the same text parsed by net/url directly; the text the type prints and the
+		// text it marshals to must denote the same URL (path, query, fragment, owner)
+		ref, rerr := url.Parse(p[0])
+		if rerr == nil {
+			mt, _ := u.MarshalText()
+			for _, txt := range []string{u.String(), string(mt)} {
+				got, gerr := url.Parse(txt)
+				if gerr != nil || got.String() != ref.String() {
+					return "text:uri-denotes-other-url", fmt.Sprintf("ParseLimeURI(%q) prints/marshals as %q, which is the URL %v, not %q", p[0], txt, got, ref.String())
+				}
+			}
+		}
 		var z lime.URI
 		b, _ := u.MarshalText()
 		if err := z.UnmarshalText(b); err != nil || z.String() != u.String() {
@@ -369,6 +382,8 @@ func main() {
 		text("uri", s)
 		text("uri", "/p?"+s)
 		text("uri", "lime://"+s+"/p")
+		text("uri", "/p#"+s)
+		text("uri", "/p?a=1#"+s)
 	}
 	for _, s := range codec.URIs {
 		text("uri", s)
